@@ -5,6 +5,9 @@ HERE = os.path.dirname(os.path.dirname(os.path.abspath(__file__)))
 BASE = json.load(open('/root/.vp/BASELINE.json'))
 
 CHECKS = {
+ 'C02': dict(cat='exploration', sec='3/C02', technique='runtime monitoring: each service\'s own capabilities documents are parsed by independent parsers, the rectangle a standards-following client computes for an advertised address is derived from them, the tile is requested and its pixels compared with the NOISE upstream picture of exactly that rectangle',
+   text='Generated grids (global mercator/geodetic profiles, sqrt2 and explicit ladders, local grids with bbox not a multiple of the tile span, aligned grids, ll/ul origin, lat/long-axis SRS, non-square tiles), layers with extent equal to or smaller than the grid, TMS origin option; probed through TMS (root -> TileMap -> TileSets), /tiles with ?origin=sw|nw (same ground tile must be the same image), WMTS KVP and REST (TileMatrix scale, TopLeftCorner in CRS axis order, matrix sizes), WMS-C (TileSet BoundingBox/Resolutions) and KML (LatLonBox). All advertised levels, corner/edge/interior addresses. Because every pixel of the NOISE pyramid is unique, a tile of the wrong level, row convention or origin is a total mismatch.',
+   note='trusted: vlib/caps.py (rules written from TMS 1.0.0 / WMTS 1.0.0 / WMS-C / KML), pyproj axis order, NOISE. Sub-half-pixel shifts are invisible; pixels near the grid/coverage border are not judged; coverage-limited layers are compared within two pixels (placement accuracy is C01). Three open known findings (TMS/WMS-C on ul grids that cannot be flipped, WMTS with sqrt2 ladders, KML wrap-around) are reproduced by directed cases in every run.'),
  'C08': dict(cat='exploration', sec='3/C08', technique='runtime monitoring under a cooperative scheduler at the app level: logical clients serialised at cache reads/writes, file-lock operations, write_atomic/bundle file-system calls and upstream enter/return; oracle on responses (NOISE), final cache sweep and per-meta-tile fetch counts; plus forked multi-process stress with injected delays',
    text='2-6 clients request the same tile, tiles of one meta tile or tiles of two meta tiles (through /tiles requests and TileManager batches) on an empty file / sqlite / compact-v2 cache with meta 1x1..3x2, WMS or bulk tile source; the scheduler owns every backend call, every FileLock step (virtual clock), the os.open/rename/unlink of write_atomic and bundle writers, cooperative replacements of the backends\' thread locks, and the upstream call. Random, sticky and PCT schedules; a cross-block probe holds one client inside the upstream while clients of another meta tile must finish; fault runs fail the first upstream call. Judged: every response pixel-equals NOISE, the cache ends with exactly the tiles of the touched meta tiles, one upstream request per meta tile, no deadlock. Stress rounds fork 2-5 real processes on one cache directory with random delays and count identical upstream requests across processes.',
    note='trusted: scheduler, proxies, NOISE. Code between scheduling points is atomic in cooperative mode; multi-process schedules are stressed, not enumerated. concurrent_tile_creators=1 here (C04 exercises creator threads).'),
